@@ -54,6 +54,36 @@ Theorem C13_v4_forms_one_record : forall a m, length a = 4%nat ->
 Proof. exact encode_v4_forms. Qed.
 Print Assumptions C13_v4_forms_one_record.
 
+(* The public layer (ChainService.IsBanned / BanPeer / UnbanPeer): an
+   IsBanned answer computed as Status (ParseIPNet addr) with no state in
+   between is, after ANY history of public calls (clock readings of the calls
+   that reach the store non-decreasing), the banned bit of the store spec for
+   the network the address denotes ... *)
+Theorem C13_public_status_is_store_status : forall h p q,
+  monotone (ptimes (h ++ [PIsBanned p q])) ->
+  snd (pstep (fst (prun [] h)) (PIsBanned p q)) = PAns (public_spec h p q).
+Proof. exact public_status_exact. Qed.
+Print Assumptions C13_public_status_is_store_status.
+
+(* ... the same whichever form of one IP address the caller used (ParseIP's
+   4-byte and 16-byte results; textual forms are below the model: trusted
+   net.ParseIP, exercised by the harness), in every store state ... *)
+Theorem C13_public_form_independent : forall s h p1 p2 q, same_ip p1 p2 ->
+  pstep s (PIsBanned p1 q) = pstep s (PIsBanned p2 q) /\
+  public_spec h p1 q = public_spec h p2 q.
+Proof.
+  intros s h p1 p2 q H. split;
+    [now apply public_form_independent | now apply public_spec_form_independent].
+Qed.
+Print Assumptions C13_public_form_independent.
+
+(* ... and every observation of every public history satisfies the monitor
+   that the correspondence run evaluates on ChainService traces. *)
+Theorem C13_public_model_holds : forall h,
+  monotone (ptimes h) -> pholds (combine h (snd (prun [] h))) = true.
+Proof. exact pmodel_holds. Qed.
+Print Assumptions C13_public_model_holds.
+
 (* Non-vacuity: a history with a ban, a query before and after the lapse, a
    reopen, an unban and a re-ban meets the hypotheses, and the answers are
    the expected ones. *)
@@ -68,3 +98,24 @@ Example C13_nonvacuous :
     [OOk; OStatus true 3 15; OOk; OStatus true 3 15; OStatus false 0 0;
      OOk; OOk; OStatus false 0 0].
 Proof. split; [cbn; unfold ns; lia | vm_compute; reflexivity]. Qed.
+
+(* Non-vacuity of the public statements: lookups under two forms before the
+   ban, a ban under a third call, lookups under both forms, lapse, unban; a
+   host name is never banned (fail open) and cannot be banned. *)
+Definition ex_p4 : bytes := [10;1;2;3].
+Definition ex_p16 : bytes := v4prefix ++ [10;1;2;3].
+Definition ex_pops : list pop :=
+  [ PIsBanned ex_p16 (1 * ns); PIsBanned ex_p4 (2 * ns);
+    PBan ex_p16 3 (5 * ns) (10 * ns); PIsBanned ex_p4 (6 * ns); PIsBanned ex_p16 (6 * ns);
+    PIsBanned [] (6 * ns); PBan [] 3 (6 * ns) ns;
+    PIsBanned ex_p4 (15 * ns); PBan ex_p4 2 (16 * ns) (10 * ns); PUnban ex_p16;
+    PIsBanned ex_p4 (17 * ns) ].
+Example C13_public_nonvacuous :
+  monotone (ptimes ex_pops) /\ same_ip ex_p4 ex_p16 /\
+  snd (prun [] ex_pops) =
+    [PAns false; PAns false; POk; PAns true; PAns true; PAns false; PErr;
+     PAns false; POk; POk; PAns false].
+Proof.
+  split; [cbn; unfold ns; lia|]. split; [split; [reflexivity|discriminate]|].
+  vm_compute; reflexivity.
+Qed.
